@@ -7,11 +7,11 @@
 package main
 
 import (
-	"hash/fnv"
 	"bytes"
 	"context"
 	"encoding/json"
 	"fmt"
+	"hash/fnv"
 	"os"
 	"path/filepath"
 	"regexp"
@@ -112,14 +112,14 @@ func (f fineAuth) AuthorizeSeriesRead(db string, m []byte, tags models.Tags) boo
 func (f fineAuth) AuthorizeSeriesWrite(string, []byte, models.Tags) bool { return true }
 
 type world struct {
-	c      *caseT
-	conc   map[string]string
-	abs    map[string]string
-	st     *tsdb.Store
-	ts     [3]int64
-	live   [3]map[int]bool // live[shard][series]
-	gone   [3]map[int]bool // deleted from the shard and not rewritten since
-	drift  map[string]bool
+	c     *caseT
+	conc  map[string]string
+	abs   map[string]string
+	st    *tsdb.Store
+	ts    [3]int64
+	live  [3]map[int]bool // live[shard][series]
+	gone  [3]map[int]bool // deleted from the shard and not rewritten since
+	drift map[string]bool
 }
 
 func (w *world) series(i int) ([]byte, models.Tags) {
@@ -585,32 +585,48 @@ func run(c *caseT, env *rt.Env) rt.Result {
 				sawPartial = true
 			}
 			var err error
-			if c.DelAPI == "influxql" {
-				text := fmt.Sprintf("time >= %d AND time <= %d", min, max)
-				if s.K != "" {
-					text = quoteIdent(w.conc[s.K]) + " = " + quoteStr(w.conc[s.V]) + " AND " + text
-				}
-				cond, perr := influxql.ParseExpr(text)
-				if perr != nil {
-					return rt.Infra("ParseExpr(" + text + "): " + perr.Error())
-				}
-				err = st.DeleteSeries(ctx, "db0", []influxql.Source{&influxql.Measurement{Name: w.conc[s.M]}}, cond)
-			} else {
-				children := []*datatypes.Node{cmpNode(models.MeasurementTagKey, w.conc[s.M])}
-				if s.K != "" {
-					children = append(children, cmpNode(w.conc[s.K], w.conc[s.V]))
-				}
-				rootNode := children[0]
-				if len(children) == 2 {
-					rootNode = &datatypes.Node{NodeType: datatypes.Node_TypeLogicalExpression, Value: &datatypes.Node_Logical_{Logical: datatypes.Node_LogicalAnd}, Children: children}
-				}
-				pred, perr := tsm1.NewProtobufPredicate(&datatypes.Predicate{Root: rootNode})
-				if perr != nil {
-					return rt.Infra("predicate: " + perr.Error())
-				}
-				err = st.DeleteSeriesWithPredicate(ctx, "db0", min, max, pred, nil)
+			delDone := make(chan error, 1)
+			go func() {
+				delDone <- func() error {
+					if c.DelAPI == "influxql" {
+						text := fmt.Sprintf("time >= %d AND time <= %d", min, max)
+						if s.K != "" {
+							text = quoteIdent(w.conc[s.K]) + " = " + quoteStr(w.conc[s.V]) + " AND " + text
+						}
+						cond, perr := influxql.ParseExpr(text)
+						if perr != nil {
+							return fmt.Errorf("INFRA ParseExpr(%s): %v", text, perr)
+						}
+						err = st.DeleteSeries(ctx, "db0", []influxql.Source{&influxql.Measurement{Name: w.conc[s.M]}}, cond)
+					} else {
+						children := []*datatypes.Node{cmpNode(models.MeasurementTagKey, w.conc[s.M])}
+						if s.K != "" {
+							children = append(children, cmpNode(w.conc[s.K], w.conc[s.V]))
+						}
+						rootNode := children[0]
+						if len(children) == 2 {
+							rootNode = &datatypes.Node{NodeType: datatypes.Node_TypeLogicalExpression, Value: &datatypes.Node_Logical_{Logical: datatypes.Node_LogicalAnd}, Children: children}
+						}
+						pred, perr := tsm1.NewProtobufPredicate(&datatypes.Predicate{Root: rootNode})
+						if perr != nil {
+							return fmt.Errorf("INFRA predicate: %v", perr)
+						}
+						err = st.DeleteSeriesWithPredicate(ctx, "db0", min, max, pred, nil)
+					}
+					return err
+				}()
+			}()
+			select {
+			case err = <-delDone:
+			case <-time.After(5 * time.Minute):
+				// the Store delete can deadlock against a tsi1 log compaction (reported separately, not C42's subject):
+				// inconclusive, never a listing violation
+				return rt.Infra("store delete did not return within 5 min (tsi1 compaction vs. delete deadlock?)")
 			}
 			if err != nil {
+				if strings.HasPrefix(err.Error(), "INFRA ") {
+					return rt.Infra(err.Error())
+				}
 				return rt.Fail(i, "delete: "+err.Error(), err.Error(), nil)
 			}
 			for _, sh := range s.Rng {
